@@ -637,11 +637,15 @@ def stage_steps(case, stage):
 
 
 def plan(case):
+    """numbers: solution and reactants b+1, products of the batch stages b+2 / b+3 (b = case.get("base", 0); histories of
+    several cells on one instance use different or equal bases)"""
     db = case["db"]
+    b = int(case.get("base", 0))
+    n1, n2, n3 = b + 1, b + 2, b + 3
     sim0 = [KNOBS, RATES_TEXT.rstrip(), EXTRA_PHASES]
     if EXTRA_EXCHANGE.get(db):
         sim0.append(EXTRA_EXCHANGE[db])
-    sim0.append(render_solution(case["sol"], 1))
+    sim0.append(render_solution(case["sol"], n1))
     sim0.append("END")
     cols = punch_columns(case)
     cells = case["mode"] == "cells"
@@ -650,28 +654,28 @@ def plan(case):
     # ---- stage 1
     defs = []
     if "pp" in case:
-        defs.append(render_pp(case["pp"], 1))
+        defs.append(render_pp(case["pp"], n1))
     if "ss" in case:
-        defs.append(render_ss(case["ss"], 1))
+        defs.append(render_ss(case["ss"], n1))
     if "kin" in case:
-        defs.append(render_kin(case["kin"], 1))
+        defs.append(render_kin(case["kin"], n1))
     if "exch" in case:
-        defs.append(render_exch(case["exch"], 1))
+        defs.append(render_exch(case["exch"], n1, n1))
     if "surf" in case:
-        defs.append(render_surf(case["surf"], 1))
+        defs.append(render_surf(case["surf"], n1, n1))
     if "reaction" in case:
-        defs.append(render_reaction(case["reaction"], 1))
+        defs.append(render_reaction(case["reaction"], n1))
     if "temps" in case:
-        defs.append("REACTION_TEMPERATURE 1\n " + " ".join(fmt(t) for t in case["temps"]))
+        defs.append("REACTION_TEMPERATURE %d\n " % n1 + " ".join(fmt(t) for t in case["temps"]))
     incr = "INCREMENTAL_REACTIONS %s" % ("true" if case["incr"] else "false")
     if cells:
-        t = defs + ["USE solution none", "END", incr, render_punch(cols), "RUN_CELLS\n -cells 1", "DUMP\n -all", "END"]
-        saved = 1
+        t = defs + ["USE solution none", "END", incr, render_punch(cols), "RUN_CELLS\n -cells %d" % n1, "DUMP\n -all", "END"]
+        saved = n1
     else:
-        t = defs + [incr, render_punch(cols), "USE solution 1"]
+        t = defs + [incr, render_punch(cols), "USE solution %d" % n1]
         # (reactants tied to a kinetic reactant must carry the number of the KINETICS block, which the engine always
         #  writes back to its own number: such cells are saved in place)
-        saved = 1 if "kin" in case else 2
+        saved = n1 if "kin" in case else n2
         t += ["SAVE solution %d" % saved] + ["SAVE %s %d" % (KW[k], saved) for k in kinds] + ["DUMP\n -all", "END"]
     stages.append({"text": "\n".join(t) + "\n", "saved": saved, "nsteps": stage_steps(case, 0)})
     # ---- stage 2
@@ -685,16 +689,59 @@ def plan(case):
             t.append("REACTION_TEMPERATURE %d\n %s" % (n, " ".join(fmt(x) for x in s2["temps"])))
         if cells:
             if "reaction" not in s2 and "reaction" in case:
-                t.append("DELETE\n -reaction 1")
+                t.append("DELETE\n -reaction %d" % n1)
             if "temps" not in s2 and "temps" in case:
-                t.append("DELETE\n -reaction_temperature 1")
-            t += ["USE solution none", "END", incr, "RUN_CELLS\n -cells 1", "DUMP\n -all", "END"]
-            saved2 = 1
+                t.append("DELETE\n -reaction_temperature %d" % n1)
+            t += ["USE solution none", "END", incr, "RUN_CELLS\n -cells %d" % n1, "DUMP\n -all", "END"]
+            saved2 = n1
         else:
             t += [incr, "USE solution %d" % n] + ["USE %s %d" % (KW[k], n) for k in kinds]
             if "kin" in case:
-                t.append("USE kinetics 1")
-            saved2 = 1 if "kin" in case else 3
+                t.append("USE kinetics %d" % n1)
+            saved2 = n1 if "kin" in case else n3
             t += ["SAVE solution %d" % saved2] + ["SAVE %s %d" % (KW[k], saved2) for k in kinds] + ["DUMP\n -all", "END"]
         stages.append({"text": "\n".join(t) + "\n", "saved": saved2, "nsteps": stage_steps(case, 1)})
     return {"sim0": "\n".join(sim0) + "\n", "stages": stages, "cols": cols, "kinds": kinds}
+
+
+@st.composite
+def history_strategy(draw, dbs=("phreeqc.dat",)):
+    """2-3 cells reacted one after the other on ONE instance (per-phase scratch state of the engine - activity
+    coefficients and mole fractions of solid-solution components, in/out flags, amounts - outlives a calculation).
+    The cells share a small family of solid-solution component sets, ideal and non-ideal in any order, under different
+    solid-solution names; their numbers are different (base 0 / 10 / 20) or equal (redefinition of the same numbers)."""
+    db = draw(st.sampled_from(list(dbs)))
+    k = draw(st.integers(2, 3))
+    fam = draw(st.lists(st.sampled_from(list(range(len(DB[db]["ss_sets"])))), min_size=1, max_size=2, unique=True))
+    cells = []
+    for j in range(k):
+        c = draw(case_strategy((db,)))
+        if draw(st.integers(0, 9)) < 8:
+            sss, used = [], set()
+            for a, si in enumerate(fam if draw(st.booleans()) else fam[:1]):
+                comps = [x for x in DB[db]["ss_sets"][si] if x not in used and phase_of(db, x) is not None]
+                if len(comps) < 2:
+                    continue
+                nonideal = draw(st.booleans())
+                if nonideal:
+                    comps = comps[:2] if draw(st.booleans()) else comps[-2:]
+                used.update(comps)
+                d = {"name": "H%dS%d" % (j, a), "comps": [[x, draw(st.one_of(st.just(0.0), cg.logu(1e-6, 0.1, 3)))] for x in comps],
+                     "nonideal": None}
+                if nonideal:
+                    d["nonideal"] = [draw(st.sampled_from(["Gugg_nondim", "Gugg_kJ"])), draw(cg.uni(-1.0, 2.5, 3)),
+                                     draw(st.one_of(st.just(0.0), cg.uni(-0.5, 0.5, 2)))]
+                sss.append(d)
+            if sss:
+                c["ss"] = sss
+                if "pp" in c:
+                    c["pp"] = [p for p in c["pp"] if p["name"] not in used]
+                    tied = {c.get("exch", {}).get("phase"), c.get("surf", {}).get("rel") if c.get("surf", {}).get("kind") == "phase" else None}
+                    if not c["pp"] or any(t and t not in [p["name"] for p in c["pp"]] for t in tied):
+                        c.pop("pp", None)
+                        for kd in ("exch", "surf"):
+                            if c.get(kd, {}).get("kind") == "phase":
+                                c.pop(kd)
+        c["base"] = draw(st.sampled_from([0, 0, 10, 20]))
+        cells.append(c)
+    return {"db": db, "history": cells}
